@@ -491,13 +491,19 @@ func getRound(n float64) float64 {
 		return n
 	}
 
-	if n < -0.5 {
-		n = float64(int(n - 0.5))
-	} else if n > 0.5 {
-		n = float64(int(n + 0.5))
-	} else {
-		n = 0
+	// Work on floats only: converting to int overflows beyond 2^63, and
+	// adding 0.5 first rounds 0.49999999999999994 up to 1.
+	floor := math.Floor(n)
+
+	if n < -0.5 && n-floor == 0.5 {
+		// Negative halves keep rounding away from zero, as they always have
+		// here (round(-1.5) = -2).
+		return floor
 	}
 
-	return n
+	if n-floor >= 0.5 {
+		return floor + 1
+	}
+
+	return floor
 }
